@@ -28,15 +28,15 @@ CLAIMED = {
    note='Bounds: cliquishness-4 n<=4 (5), cross kernels n<=4 with all disjoint list pairs, n.s.i. betweenness kernel on all labelled graphs n<=4 (5) with real weights. igraph/ARPACK measures outside.',
    ref="DESIGN.md §3 C04"),
  "C11": dict(
-   engine="K",
+   engine="K+P",
    technique="bounded symbolic execution of the real kernels (own guarded-merging interpreter over Cython's parse tree of the current numerics.pyx) + z3; sat models replayed on the real build through the public API",
-   text='Bounded model checking: the compiled cross kernels (plain and n.s.i.) are executed symbolically over adjacency bits and real weights for every ordered pair of disjoint node lists up to the bound, in ascending and shuffled list order, and z3 shows equality with the sub-block definitions.',
+   text='Bounded model checking: the Python cross/internal measures of InteractingNetworks are executed by Engine P (degree/density/clustering type measures over adjacency bits against the sub-block definitions, compiled = _sparse twins, argument-order symmetry; path-based measures per concrete topology incl. disconnected pairs and non-covering groups with symbolic link and node weights: sub-block locality, definition on connected blocks, order symmetry). Bounded model checking: the compiled cross kernels (plain and n.s.i.) are executed symbolically over adjacency bits and real weights for every ordered pair of disjoint node lists up to the bound, in ascending and shuffled list order, and z3 shows equality with the sub-block definitions.',
    note='Bounds: n<=4 all pairs, n=5 sampled (all in thorough). 0/0 n.s.i. transitivity (no cross link) outside. cross/internal betweenness (igraph) outside.',
    ref="DESIGN.md §3 C11"),
  "C19": dict(
-   engine="K",
+   engine="K+P",
    technique="bounded symbolic execution of the real kernels (own guarded-merging interpreter over Cython's parse tree of the current numerics.pyx) + z3; sat models replayed on the real build through the public API",
-   text='Bounded model checking of what distribution relies on: for every graph and every contiguous chunk [s,e) the chunk kernels return exactly the slice of the serial defining sum, and the n.s.i. betweenness kernel is additive over every split of the target range (all labelled graphs up to the bound, symbolic weights and source masks).',
+   text='Bounded model checking of the master blocks: the real newman_betweenness / nsi_newman_betweenness / nsi_arenas_betweenness run under Engine P with the mpi module replaced by a recording stand-in (worker counts and silence levels enumerated, weights symbolic, kernel results and the matrix inverse uninterpreted): every retrieved id was submitted, the ranges partition [0,N), every submitted argument is the slice of the serial argument, the reassembled vector equals the serial one. Bounded model checking of what distribution relies on: for every graph and every contiguous chunk [s,e) the chunk kernels return exactly the slice of the serial defining sum, and the n.s.i. betweenness kernel is additive over every split of the target range (all labelled graphs up to the bound, symbolic weights and source masks).',
    note='Bounds: chunk kernels n<=4 (5), target splits on all graphs n<=4 (5). Real MPI transport/pickling outside; master-block arithmetic and protocol are separate obligations once present in evidence.',
    ref="DESIGN.md §3 C19"),
  "C02": dict(
